@@ -369,6 +369,10 @@ func extract(a hx.ExtractArgs) error {
 		}
 		lf.DefStringList(p[1], s)
 	}
+	// 8. row aliasing on the ON DUPLICATE KEY UPDATE path (facts_alias.go)
+	if err := extractAlias(a, lf); err != nil {
+		return err
+	}
 	return lf.Write(a.Out)
 }
 
@@ -580,7 +584,7 @@ func corpus() []struct {
 func run(a hx.RunArgs) error {
 	out := hx.NewOut(a.OutDir)
 	defer out.Close()
-	out.Rule = "editor-level histories on the real tableEditor behind the real TableEditorIter: every generated statement is first run with an injected error at each call position (0..n) and once with an ignorable error, then completely; SQL-level statements failing at every row position. Non-trivial: a failed statement had executed at least one call on a non-empty table"
+	out.Rule = "editor-level histories on the real tableEditor behind the real TableEditorIter: every generated statement is first run with an injected error at each call position (0..n) and once with an ignorable error, then completely; INSERT / ON DUPLICATE KEY UPDATE histories through Engine.Query in which rows rewritten by earlier statements are updated again by statements failing at a later row; SQL-level statements failing at every row position. Non-trivial: a failed statement had executed at least one call (processed at least one row) on a non-empty table"
 	r := hx.NewRand(a.Seed).Fork()
 	e := eng.New("d")
 
@@ -647,5 +651,10 @@ func run(a hx.RunArgs) error {
 		out.Stat(fmt.Sprintf("env:pk%d:idx%d:np%d", len(env.PK), len(env.Idx), env.NParts))
 	}
 
+	// row aliasing: INSERT / ON DUPLICATE KEY UPDATE histories (odku.go). Its random stream is
+	// derived from the seed independently, so that the streams before and after keep their cases.
+	if err := runOdku(a, out, hx.NewRand(a.Seed^0x0d4b15).Fork()); err != nil {
+		return err
+	}
 	return runSQL(a, out, r.Fork())
 }
